@@ -279,21 +279,25 @@ pub fn run(_prop: &str, cases: &[String]) -> RunOut {
             "tokconst" => {
                 // the public constants and id helpers, compared with the regenerated model constants
                 let ids = spl_generic_token::spl_token_ids();
-                let mut err = None;
-                if ids != vec![spl_generic_token::token::id(), spl_generic_token::token_2022::id()] { err = Some("spl_token_ids is not [token, token-2022]".to_string()); }
-                if ids.iter().any(|i| !spl_generic_token::is_known_spl_token_id(i)) { err = Some("a listed id is not known".into()); }
+                // none of this is stated by C16/C17: the line is compared with the regenerated model constants
+                // (correspondence) and `C16_native_mint` is a proof obligation; differences are notes, not oracle failures
+                let mut err: Option<String> = None;
+                let mut notes: Vec<&str> = vec![];
+                if ids != vec![spl_generic_token::token::id(), spl_generic_token::token_2022::id()] { notes.push("spl_token_ids is not [token, token-2022]"); }
+                if ids.iter().any(|i| !spl_generic_token::is_known_spl_token_id(i)) { notes.push("a listed id is not known"); }
                 // the canned native-mint data is the reference packing of the documented state
                 {
                     use solana_program_pack::Pack;
                     let m = spl_token_interface::state::Mint { mint_authority: solana_program_option::COption::None, supply: 0, decimals: 9, is_initialized: true, freeze_authority: solana_program_option::COption::None };
                     let mut b = [0u8; 82];
                     m.pack_into_slice(&mut b);
-                    if b != spl_generic_token::token::native_mint::ACCOUNT_DATA { err = Some("native_mint::ACCOUNT_DATA is not the packing of the documented native mint state".into()); }
-                    if spl_token_interface::state::Mint::unpack(&spl_generic_token::token::native_mint::ACCOUNT_DATA).ok() != Some(m) { err = Some("native_mint::ACCOUNT_DATA does not unpack to the documented state".into()); }
+                    if b != spl_generic_token::token::native_mint::ACCOUNT_DATA { notes.push("native_mint::ACCOUNT_DATA is not the packing of the documented native mint state"); }
+                    if spl_token_interface::state::Mint::unpack(&spl_generic_token::token::native_mint::ACCOUNT_DATA).ok() != Some(m) { notes.push("native_mint::ACCOUNT_DATA does not unpack to the documented state"); }
                 }
                 let s = format!("ids={} acc={} mint={} native={}:{}", ids.iter().map(|i| hex(i.as_ref())).collect::<Vec<_>>().join(","),
                     spl_generic_token::token::Account::get_packed_len(), spl_generic_token::token::Mint::get_packed_len(),
                     hex(spl_generic_token::token::native_mint::id().as_ref()), hex(&spl_generic_token::token::native_mint::ACCOUNT_DATA));
+                let s = if notes.is_empty() { s } else { format!("{s} | note: {}", notes.join("; ")) };
                 out.stats.bump("tokconst");
                 out.push(s, err.map_or(Ok(()), Err));
             }
